@@ -2,7 +2,7 @@
 EXTENDS Validate, Json
 CONSTANT Emit
 Sig == <<[name |-> "input", hasDefault |-> FALSE], [name |-> "mult", hasDefault |-> TRUE], [name |-> "flag", hasDefault |-> TRUE], [name |-> "mode", hasDefault |-> TRUE]>>
-Vals == {"default", "other"}
+Vals == {"default", "other", "falsy"}
 VARIABLES unsupported, npos, pos, kw, phase
 vars == <<unsupported, npos, pos, kw, phase>>
 Init == unsupported = {} /\ npos = 0 /\ pos = <<>> /\ kw = [x \in {} |-> ""] /\ phase = "u"
